@@ -17,6 +17,7 @@ type specEnv struct {
 	heap  Heap
 	old   Heap
 	inOld bool
+	qdepth int
 }
 
 func (x *Enc) newSpecEnv(ci *clauseInfo, vars map[string]Val, heap, old Heap) *specEnv {
@@ -249,7 +250,7 @@ func (env *specEnv) eval(e ast.Expr) Val {
 		case token.NOT:
 			return Val{ts: []Term{not(env.eval(e.X).ts[0])}}
 		case token.SUB:
-			return Val{ts: []Term{x.wrap(env.typeOf(e), app("-", env.eval(e.X).ts[0]))}}
+			return Val{ts: []Term{app("-", env.eval(e.X).ts[0])}}
 		case token.ADD:
 			return env.eval(e.X)
 		case token.AND:
@@ -469,8 +470,7 @@ func (env *specEnv) call(e *ast.CallExpr) Val {
 					if len(ls) != 1 {
 						return env.fail(e, "quantified variable of composite type")
 					}
-					x.nfresh++
-					bn := sym(fmt.Sprintf("q!%s!%d", n.Name, x.nfresh))
+					bn := sym(fmt.Sprintf("q!%s!%d", n.Name, env.qdepth))
 					binders = append(binders, fmt.Sprintf("(%s %s)", bn, ls[0].Sort))
 					if old, ok := env.vars[n.Name]; ok {
 						o := old
@@ -479,10 +479,19 @@ func (env *specEnv) call(e *ast.CallExpr) Val {
 						saved[n.Name] = nil
 					}
 					env.vars[n.Name] = Val{ts: []Term{bn}}
-					ranges = append(ranges, rangeFact(t, bn))
+					// quantified integers are mathematical: signed unbounded, unsigned >= 0
+					if isInt, signed, _ := intRange(t); isInt {
+						if !signed {
+							ranges = append(ranges, app(">=", bn, "0"))
+						}
+					}
+					// references are quantified over all of Int (negative references do not exist,
+					// so statements about them are vacuous in any real heap)
 				}
 			}
+			env.qdepth++
 			body := env.eval(fl.Body.List[0].(*ast.ReturnStmt).Results[0]).ts[0]
+			env.qdepth--
 			for n, o := range saved {
 				if o == nil {
 					delete(env.vars, n)
